@@ -11,6 +11,9 @@ theorem encode_some {hrp data s : Bytes} {m : Bool} (h : encode hrp data m = som
       dataFold? data (hrpLow hrp (polymodStep h1)) = some c0 ∧
       s = hrp ++ [49] ++ data.map charsetAt ++ (checksumSyms (six c0 ^^^ finalConstant m)).map charsetAt := by
   unfold encode at h
+  by_cases he : hrp.length < 1
+  · simp [he] at h
+  simp only [he, ↓reduceIte] at h
   cases h1 : hrpHigh? hrp 1 with
   | none => simp [h1] at h
   | some c1 =>
@@ -23,6 +26,13 @@ theorem encode_some {hrp data s : Bytes} {m : Bool} (h : encode hrp data m = som
       | some c0 =>
         simp only [h2, Option.bind_some, Option.pure_def, Option.some.injEq] at h
         exact ⟨c1, c0, rfl, by omega, h2, h.symm⟩
+
+/-- `Encode` refuses the empty human-readable part (the guard of /repo's fix aaaa0fae) -/
+theorem encode_nil (data : Bytes) (m : Bool) : encode [] data m = none := by
+  unfold encode; simp
+
+theorem encode_some_ne {hrp data s : Bytes} {m : Bool} (h : encode hrp data m = some s) : hrp ≠ [] := by
+  intro e; subst e; rw [encode_nil] at h; cases h
 
 theorem decHrp_of_high (hrp : Bytes) : ∀ (c c' : UInt32) (acc : Bytes) (lo : Bool),
     hrpHigh? hrp c = some c' →
